@@ -32,10 +32,9 @@ KANI_DIR = os.path.join(fw.VERIF, "kani")
 HARNESSES = [
     # name, tier, bound description
     ("polynomial_from_slice", "quick", "<= 67 bytes (two scalars + slack)"),
+    ("commit_key_from_slice_two_points", "quick", "<= 101 bytes (two compressed points + slack)"),
+    ("proof_from_bytes", "quick", "all 1008-byte strings"),
     ("commit_key_from_raw_var_bytes_one_point", "thorough", "<= 8+97 bytes (one raw point), symbolic length"),
-    ("commit_key_from_slice_two_points", "thorough", "<= 101 bytes (two compressed points + slack)"),
-    ("evaluations_from_slice", "thorough", "<= 239 bytes (domain + two scalars + slack)"),
-    ("proof_from_bytes", "thorough", "all 1008-byte strings"),
 ]
 
 
@@ -89,6 +88,10 @@ def run(run):
         subprocess.run(["cp", "/repo/Cargo.lock", lock])
     per = 1500 if run.tier == "quick" else 3600
     todo = [h for h in HARNESSES if h[1] == "quick" or run.tier == "thorough"]
+    if os.environ.get("VERIF_SKIP_KANI"):
+        # triage aid only: the run is reported inconclusive, never as a pass
+        run.inconclusive.append("Kani harnesses skipped (VERIF_SKIP_KANI set)")
+        todo = []
     results = []
     for name, tier, bound in todo:
         status, out, secs = kani(name, per)
@@ -134,7 +137,7 @@ def run(run):
             run.inconclusive.append(f"kani/{name}: {status} after {secs:.0f}s")
     run.extra["harnesses"] = results
     run.add_functions(["CommitKey::from_raw_var_bytes", "Polynomial::from_slice", "CommitKey::from_slice",
-                       "Evaluations::from_slice", "Proof::from_bytes"])
+                       "Proof::from_bytes"])
     run.bounds.append("; ".join(f"{n}: {b}" for n, _, b in todo))
     run.outside.append("real curve/field arithmetic (contract bodies), inflate/MessagePack of compressed circuits, byte "
                        "strings longer than the bounds, 'usable for proving without panicking', the full "
